@@ -81,30 +81,78 @@ def audit_sources() -> list[str]:
     return problems
 
 
-def build_coq(log=None) -> float:
-    """Regenerate Gen/SourceConsts.v from /repo, then run a full (incremental) make."""
+LAST_BUILD: dict = {}
+
+
+def _dep_graph() -> dict[str, set[str]]:
+    """file.v -> the .v files it depends on, from coq_makefile's dependency file"""
+    g: dict[str, set[str]] = {}
+    f = COQ / ".Makefile.d"
+    if not f.exists():
+        return g
+    for line in f.read_text().replace("\\\n", " ").splitlines():
+        if ":" not in line:
+            continue
+        lhs, rhs = line.split(":", 1)
+        tg = [x for x in lhs.split() if x.endswith(".vo")]
+        if not tg:
+            continue
+        me = tg[0][:-1]
+        g.setdefault(me, set()).update(x[:-1] for x in rhs.split() if x.endswith(".vo"))
+    return g
+
+
+def build_coq(log=None) -> dict:
+    """Regenerate Gen/SourceConsts.v from the repository, then run a full (incremental) `make -k`.
+    Returns dict(seconds, broken = {relative .v path: why}) where broken holds every file that failed to
+    compile and, transitively, every file that depends on one (their stale .vo files are removed).
+    Only a check whose own proof files are in there reports its proof as broken."""
     t0 = time.time()
     WORK.mkdir(exist_ok=True)
     with open(WORK / ".build.lock", "w") as lk:
         fcntl.flock(lk, fcntl.LOCK_EX)
         import gen_consts
 
-        try:
-            gen_consts.regenerate()
-        except gen_consts.Unrecognised as e:
-            raise BuildError(f"constants translator (fail-closed) does not recognise the current source: {e}")
+        consts = gen_consts.regenerate()
         proj = COQ / "_CoqProject"
         mk = COQ / "Makefile"
         if not mk.exists() or mk.stat().st_mtime < proj.stat().st_mtime:
             r = sh(["coq_makefile", "-f", "_CoqProject", "-o", "Makefile"], cwd=COQ)
             if r.returncode != 0:
                 raise BuildError("coq_makefile failed:\n" + r.stdout + r.stderr)
-        r = sh(["timeout", "1500", "make", "-j16"], cwd=COQ)
+        r = sh(["timeout", "1500", "make", "-k", "-j16"], cwd=COQ)
+        out = r.stdout + r.stderr
         if log is not None:
-            log.append(r.stdout[-4000:] + r.stderr[-4000:])
+            log.append(out[-8000:])
+        broken: dict[str, str] = {}
         if r.returncode != 0:
-            raise BuildError("coq build failed:\n" + (r.stdout + r.stderr)[-6000:])
-    return time.time() - t0
+            failed = re.findall(r"\*\*\* \[Makefile[^:]*:\d+: (\S+?)\.vo\] Error", out)
+            if not failed:
+                raise BuildError("coq build failed:\n" + out[-6000:])
+            terr = "; ".join(f"translator section {k} not recognised: {v}" for k, v in sorted(consts["errors"].items()))
+            for f in failed:
+                m = re.search(r'File "\./' + re.escape(f) + r'\.v", line (\d+)[^\n]*\n((?:.*\n){0,6})', out)
+                why = f"{f}.v does not compile" + (f" (line {m.group(1)}: {' '.join(m.group(2).split())[:300]})" if m else "")
+                broken[f + ".v"] = why + (" -- " + terr if terr else "")
+            g = _dep_graph()
+            changed = True
+            while changed:
+                changed = False
+                for f, deps in g.items():
+                    if f not in broken:
+                        hit = [d for d in deps if d in broken]
+                        if hit:
+                            broken[f] = f"depends on {hit[0]}: {broken[hit[0]]}"
+                            changed = True
+            for f in broken:
+                for ext in (".vo", ".glob", ".vos", ".vok"):
+                    q = COQ / (f[:-2] + ext)
+                    if q.exists():
+                        q.unlink()
+        res = dict(seconds=time.time() - t0, broken=broken, translator_errors=consts["errors"])
+        LAST_BUILD.clear()
+        LAST_BUILD.update(res)
+        return res
 
 
 def theorems_of(prop_file: Path) -> list[str]:
@@ -279,11 +327,19 @@ class Check:
     # -- phase 1: proofs
     def build_and_audit(self):
         try:
-            self.build_s = build_coq()
+            res = build_coq()
+            self.build_s = res["seconds"]
         except BuildError as e:
             self.proof_broken.append(str(e))
             self.build_s = time.time() - self.t0
             return False
+        mine = [str(f.relative_to(COQ)) for f in self.serving_files]
+        hit = [f for f in mine if f in res["broken"]]
+        if hit:
+            # only files this property's theorems rest on count; other properties' files may be broken too
+            self.proof_broken.append("coq build failed: " + "; ".join(f"{f}: {res['broken'][f]}" for f in hit[:4]))
+            if str(self.serving_files[-1].relative_to(COQ)) in res["broken"]:
+                return False
         probs = audit_sources()
         if probs:
             self.proof_broken.append("source audit: " + "; ".join(probs[:10]))
